@@ -238,10 +238,14 @@ class Model:
         """Normalisation (jtsa/inline.py): helpers that do not exist in the pinned tree are inlined
         into their callers, then the model is re-indexed.  A no-op on the pinned tree."""
         try:
-            from .inventory import FUNCTIONS
+            from .inventory import FUNCTIONS, MODULE_NAMES
         except ImportError:
             return
-        from .inline import MAX_ROUNDS, drop_absorbed_helpers, inline_new_helpers
+        from .inline import MAX_ROUNDS, drop_absorbed_helpers, inline_new_helpers, propagate_new_constants
+
+        self.constants_substituted = propagate_new_constants(self, MODULE_NAMES)
+        if self.constants_substituted:
+            self._reindex()
 
         for _ in range(MAX_ROUNDS):
             changed = inline_new_helpers(self, FUNCTIONS)
